@@ -46,6 +46,8 @@ pub struct Monitor {
     pub last_view: u64,
     pub last_hcqc: Option<u64>,
     pub last_htqc: Option<u64>,
+    /// the step being monitored was accepted by the handler
+    pub accepted_last: bool,
     max_commit_views: usize,
     max_commit_qcs: usize,
     max_timeout_qcs: usize,
@@ -213,6 +215,7 @@ impl ReplicaProp {
                 }
                 let snap = s.rig.snapshot();
                 // ---- monitors on the implementation (S)
+                self.mon.accepted_last = class == "accepted";
                 self_monitors(&mut self.mon, &s.w, &s.rig, &obs.events, &snap, &op, out);
                 let snapj = sum_snapshot(&mut s.w, &snap);
                 (op, json!({"class": class, "_why": why, "effects": effects, "snap": snapj}))
@@ -248,6 +251,26 @@ pub fn self_monitors(mon: &mut Monitor, w: &World, rig: &Rig, events: &[Ev], sna
     mon.last_view = snap.view.0;
     mon.last_hcqc = hc;
     mon.last_htqc = ht;
+    // C05 (spec: certificates carried by an accepted proposal / new-view are processed): afterwards the replica holds
+    // a commit certificate at least as high (in view) as any commit certificate the message carried
+    if op["op"] == "msg" {
+        let carried = op["msg"].get("newview").or_else(|| op["msg"].get("proposal").and_then(|p| p.get("just")));
+        if let Some(j) = carried {
+            if let Ok(aj) = serde_json::from_value::<AJust>(j.clone()) {
+                let top = match &aj {
+                    AJust::Commit(q) => Some(q.vote.view.v),
+                    AJust::Timeout(q) => q.map.iter().filter_map(|(t, _)| t.hq.as_ref().map(|c| c.vote.view.v)).max(),
+                };
+                let accepted = events.iter().any(|e| matches!(e, Ev::Persist(_))) || snap.view.0 != mon.last_view;
+                let _ = accepted;
+                if let (Some(top), true) = (top, mon.accepted_last) {
+                    if hc.is_none_or(|v| v < top) {
+                        out.oracle_fail("carried_certificate_not_adopted", "an accepted proposal / new-view carried a commit certificate higher than the one the replica holds afterwards", op.clone());
+                    }
+                }
+            }
+        }
+    }
     // C05: stored certificates verify
     if let Some(q) = &snap.high_commit_qc {
         if q.verify(g, e, &sched).is_err() {
@@ -350,6 +373,7 @@ pub fn check_equivocation(hist: &[validator::Signed<validator::ConsensusMsg>], o
 // ------------------------------------------------------------------------------------------------ generation
 
 struct Gen<'a> {
+    certified: &'a mut std::collections::HashMap<u64, (u64, u64)>,
     rng: &'a mut StdRng,
     n: usize,
     weights: Vec<u64>,
@@ -376,8 +400,11 @@ impl Gen<'_> {
         s.sort();
         s
     }
+    /// A valid commit certificate for `view`. Within one case at most one block is ever certified per view (as in any
+    /// execution with at most f faulty weight): the first (n, h) chosen for a view is reused.
     fn valid_cqc(&mut self, view: u64, n: u64, h: u64) -> ACqc {
         let s = self.quorum_set();
+        let (n, h) = *self.certified.entry(view).or_insert((n, h));
         acqc(self.n, avote(view, n, h), &s)
     }
     /// a view near `cur`: below / equal / one above / a few above / far above
@@ -481,6 +508,7 @@ impl ReplicaProp {
             let mut fresh = 100u64;
             // the last proposal the replica voted on (for the equivocating-leader-around-a-crash family)
             let mut last_voted_proposal: Option<Value> = None;
+            let mut certified: std::collections::HashMap<u64, (u64, u64)> = Default::default();
             let mut pending: std::collections::VecDeque<Value> = Default::default();
             for _ in 0..steps {
                 if let Some(op) = pending.pop_front() {
@@ -491,7 +519,7 @@ impl ReplicaProp {
                 let snap = self.s.as_ref().unwrap().rig.snapshot();
                 let cur = snap.view.0;
                 let base_n = snap.high_commit_qc.as_ref().map_or(first, |q| q.header().number.0 + 1);
-                let mut g = Gen { rng: &mut rng, n, weights: weights.clone(), me };
+                let mut g = Gen { certified: &mut certified, rng: &mut rng, n, weights: weights.clone(), me };
                 let roll = g.rng.gen_range(0..100);
                 let crash = if self.mode == Mode::Crash && g.rng.gen_bool(0.35) {
                     json!({"at": g.rng.gen_range(0..2), "applied": g.rng.gen_bool(0.5)})
